@@ -300,6 +300,14 @@ pub fn accept_job(s: &Signed, class: &str, clause: &str) -> Job {
     j
 }
 
+/// Like `accept_job`, for an edited copy of the signed case.
+pub fn accept_job_case(c: Case, s: &Signed, class: &str, clause: &str) -> Job {
+    let mut j = job(c, Expect::Accept, class, clause);
+    j.expect_calls = Some(1);
+    j.expect_provider = Some((s.expect_access_key.clone(), s.expect_token.clone()));
+    j
+}
+
 fn flip_hex_digit(c: u8) -> u8 {
     // another hex digit of the same class (digit stays digit, letter stays letter)
     match c {
@@ -617,7 +625,9 @@ pub fn c04(ctx: &mut Ctx) {
         offsets.push(b * 1_000_000_000 - 1);
         offsets.push(b * 1_000_000_000 + 1);
     }
-    let styles: [(i64, u8, usize); 6] = [(0, 0, 0), (0, 15, 0), (0, 5, 0), (5400, 15 + 16, 0), (-28800, 0, 0), (0, 0, 3)];
+    // (zone offset seconds, separator mask, fraction digits): UTC, whole and sub-hour offsets of both signs
+    // (including the -00:MM ones, where the sign lives on a zero hour), basic and extended, fractions
+    let styles: [(i64, u8, usize); 11] = [(0, 0, 0), (0, 15, 0), (0, 5, 0), (5400, 15 + 16, 0), (-28800, 0, 0), (0, 0, 3), (-1800, 15 + 16, 0), (-900, 0, 0), (2700, 0, 2), (-2700, 16, 9), (-(13 * 3600 + 2700), 15, 0)];
     let mut jobs = Vec::new();
     let mut k = 0usize;
     for sv in &servers {
@@ -687,6 +697,34 @@ pub fn c04(ctx: &mut Ctx) {
         }
         run_jobs(ctx, "VALIDATE", std::mem::take(&mut jobs));
     }
+    // header carrier with both an X-Amz-Date and a Date header naming different instants: X-Amz-Date alone
+    // decides freshness (the Date header is an ordinary header then), whatever the Date header says
+    {
+        let t0: i128 = 1_440_938_160_000_000_000;
+        for k in 0..ctx.n(120, 1200) {
+            let x_off: i128 = [0i128, 899, -899, 900, -900, 901, -901, 3600, -86_400][k % 9] * 1_000_000_000;
+            let d_off: i128 = [0i128, 901, -901, 7200, -7200, 86_400, 30][k % 7] * 1_000_000_000;
+            let mut l = simple_logical(Carrier::Header, t0 + x_off);
+            l.time_style = (*rng.pick(&[0i64, -1800, 3600]), rng.below(32) as u8, 0);
+            let date_text: Vec<u8> = match k % 4 {
+                0 => b"Sun, 30 Aug 2015 12:36:00 GMT".to_vec(),
+                1 => b"not a date".to_vec(),
+                _ => render_time(t0 + d_off, (0, if k % 2 == 0 { 0 } else { 15 }, 0)).into_bytes(),
+            };
+            let at = rng.below(l.headers.len() + 1);
+            l.headers.insert(at, (rng.pick(&["Date", "date", "DATE"]).to_string(), date_text));
+            if k % 3 == 0 {
+                l.signed.push("date".into());
+            }
+            let now = now_for(&simple_logical(Carrier::Header, t0), 0);
+            let sg = sign_and_spell(&l, &mut rng, &Spelling::plain(), now);
+            let inside = x_off.abs() <= 900_000_000_000;
+            let mut j = job(sg.case, if inside { Expect::Accept } else { Expect::Refuse(Some("SignatureDoesNotMatch")) }, "c04-both-date-headers", "C04: with an X-Amz-Date header present, freshness is decided by its instant alone; a Date header beside it must not decide");
+            j.expect_calls = Some(if inside { 1 } else { 0 });
+            jobs.push(j);
+        }
+        run_jobs(ctx, "VALIDATE", std::mem::take(&mut jobs));
+    }
     ctx.rep.add("exhaustive.offsets_per_server", offsets.len() as u64);
     ctx.rep.add("servers", servers.len() as u64);
     // random nanosecond pairs (thorough only adds more)
@@ -699,8 +737,16 @@ pub fn c04(ctx: &mut Ctx) {
         if rs::civil_from_days(t.div_euclid(1_000_000_000).div_euclid(86400) as i64).0 < 1 {
             continue;
         }
-        let mut l = simple_logical(Carrier::Header, t);
-        l.time_style = (0, rng.below(16) as u8, 0);
+        let mut l = simple_logical(if rng.chance(1, 3) { Carrier::Query } else { Carrier::Header }, t);
+        let zone = if rng.chance(1, 2) { 0 } else { *rng.pick(&[-900i64, -1800, -3540, -60, 60, 1800, 3600, -3600, 5 * 3600 + 2700, -(9 * 3600 + 1800), 14 * 3600, -14 * 3600]) };
+        l.time_style = (zone, rng.below(32) as u8, if rng.chance(1, 4) { rng.below(12) } else { 0 });
+        {
+            // the local rendering must stay within years 0001..9999
+            let local_days = (t.div_euclid(1_000_000_000) as i64 + zone).div_euclid(86400);
+            if local_days < -719162 + 1 || local_days > 2932896 - 1 {
+                l.time_style.0 = 0;
+            }
+        }
         let sg = sign_and_spell(&l, &mut rng, &Spelling::plain(), now);
         let inside = off.abs() <= 900 * 1_000_000_000;
         let mut j = job(sg.case, if inside { Expect::Accept } else { Expect::Refuse(Some("SignatureDoesNotMatch")) }, if inside { "c04-inside" } else { "c04-outside" }, "C04: accept iff |t - now| <= 15 min");
@@ -736,26 +782,30 @@ fn c03_prevalidate_sweep(ctx: &mut Ctx) {
     let mut specs = Vec::new();
     let parts_pool = ["AKID", "", "20150830", "20150831", "20150829", "2015083", "us-east-1", "us-east-1 ", "US-EAST-1", "us-east-", "iam", "IAM", "ia", "iamx", "aws4_request", "aws4_request ", "AWS4_REQUEST", "aws4", "x", "é", "20150830T", " 20150830"];
     for _ in 0..n {
+        // instants around the day boundaries of ordinary days and of the days around New Year (where a
+        // week-based year differs from the calendar year), server within or outside the window
+        let day0 = *rng.pick(&[16677i64, 16677, 17896, 16801, 16802, 18628, 20088, 18992, 17897]);
+        let t_secs = day0 * 86400 + *rng.pick(&[0i64, 1, 43_200, 86_399, 86_400, -1]);
+        let now_secs = t_secs + *rng.pick(&[0i64, 1, -1, 899, 900, 901, -900, -901, 5000]);
+        let (_, date) = rs::ref_compact(t_secs as i128 * 1_000_000_000);
+        let year_off = |d: &str, k: i64| format!("{:04}{}", d[..4].parse::<i64>().unwrap() + k, &d[4..]);
+        let (date_next_year, date_prev_year) = (year_off(&date, 1), year_off(&date, -1));
         let np = rng.below(9);
         let mut parts: Vec<&str> = (0..np).map(|_| *rng.pick(&parts_pool)).collect();
         if rng.chance(1, 2) && np >= 5 {
             // mostly right, one or two slots perturbed
-            parts = vec!["AKID", "20150830", region, service, "aws4_request"];
+            parts = vec!["AKID", &date, region, service, "aws4_request"];
             for _ in 0..rng.below(3) {
                 let i = rng.below(5);
-                parts[i] = *rng.pick(&parts_pool);
+                parts[i] = if i == 1 && rng.chance(1, 2) { if rng.chance(1, 2) { &date_next_year } else { &date_prev_year } } else { *rng.pick(&parts_pool) };
             }
             if rng.chance(1, 6) {
                 parts.push(*rng.pick(&parts_pool));
             }
         }
         let cred = parts.join("/");
-        // instants around the day boundaries of 2015-08-30 (UTC), server within or outside the window
-        let t_secs = 1_440_892_800 + *rng.pick(&[0i64, 1, 43_200, 86_399, 86_400, -1]);
-        let now_secs = t_secs + *rng.pick(&[0i64, 1, -1, 899, 900, 901, -900, -901, 5000]);
         let imp_out = match imp::preval(&cred, (t_secs, 0), (now_secs, 0), region, service) { Some(x) => x, None => continue };
         // the rule as stated
-        let (_, date) = rs::ref_compact(t_secs as i128 * 1_000_000_000);
         let ps: Vec<&str> = cred.split('/').collect();
         let spec = if (now_secs - t_secs).abs() > 900 {
             "ERR SignatureDoesNotMatch".to_string()
@@ -786,8 +836,57 @@ fn c03_prevalidate_sweep(ctx: &mut Ctx) {
     }
 }
 
+/// Scope fields and access keys outside ASCII. Header bytes and decoded query-carrier parameters are read as
+/// Latin-1 (one character per byte); the server's region and service are text. A scope whose bytes merely
+/// *look* like the server's region under another decoding is a foreign scope.
+fn c03_latin1(ctx: &mut Ctx) {
+    let mut rng = ctx.rng.fork();
+    let mut jobs = Vec::new();
+    let t0: i128 = 1_440_938_160_000_000_000;
+    for k in 0..ctx.n(40, 400) {
+        let carrier = if k % 2 == 0 { Carrier::Header } else { Carrier::Query };
+        let mut l = simple_logical(carrier.clone(), t0 + (k as i128 % 50) * 1_000_000_000);
+        l.access_key = ["AKID\u{e9}XAMPLE", "AKIDEXAMPLE", "\u{ff}KEY\u{a0}"][k % 3].to_string();
+        l.region = ["r\u{e9}gion-1", "us-east-1", "r\u{e9}gion-1"][(k / 3) % 3].to_string();
+        l.service = ["s\u{f8}rvice", "iam"][(k / 2) % 2].to_string();
+        if k % 5 == 0 {
+            l.token = Some("TOKEN123".into());
+        }
+        let now = now_for(&l, 0);
+        let sp = if k % 4 < 2 { Spelling::plain() } else { Spelling::random(&mut rng) };
+        let s = sign_and_spell(&l, &mut rng, &sp, now);
+        jobs.push(accept_job(&s, "c03-latin1-valid", "C03: a request whose scope names the server's (non-ASCII) region and service was refused, or the provider was asked for another access key"));
+        // the same scope text under another byte decoding: UTF-8 bytes of the server's region sent as scope
+        // bytes. Read as Latin-1 (the crate's reading) this is a different region.
+        if !l.region.is_ascii() || !l.service.is_ascii() {
+            let mut lf = l.clone();
+            lf.region = String::from_utf8(l.region.as_bytes().to_vec()).unwrap().bytes().map(|b| b as char).collect();
+            lf.service = l.service.bytes().map(|b| b as char).collect();
+            let mut sf = sign_and_spell(&lf, &mut rng, &sp, now);
+            sf.case.region = l.region.clone();
+            sf.case.service = l.service.clone();
+            let mut j = job(sf.case, Expect::Refuse(Some("SignatureDoesNotMatch")), "c03-latin1-foreign", "C03: a scope whose bytes are the UTF-8 form of the server's region/service (a different text when read byte-per-character, as header and query-carrier parameters are) was not refused before key lookup");
+            j.expect_calls = Some(0);
+            jobs.push(j);
+        }
+    }
+    run_jobs(ctx, "VALIDATE", jobs);
+    // the decoder of query-carrier parameters on its own: crate vs model vs "one character per decoded byte"
+    let mut tris = Vec::new();
+    for _ in 0..ctx.n(1500, 30000) {
+        let l = rng.below(8);
+        let dec: Vec<u8> = (0..l).map(|_| if rng.chance(1, 2) { rng.byte() } else { *rng.pick(b"aZ09/-_ %+\xe9\xc3\xa9\xff\x80") }).collect();
+        let enc = rs::encode(&dec);
+        let text = String::from_utf8(enc).unwrap();
+        let want: String = dec.iter().map(|b| *b as char).collect();
+        tris.push(crate::props_direct::Tri { op: "UNESC", line: format!("UNESC {}", hx(text.as_bytes())), imp: Some(imp::unesc(&text)), spec: Some(format!("OK {}", hx(want.as_bytes()))), class: "c03-unescape".into(), clause: "C03: a percent-decoded query-carrier parameter is not the text with one character per decoded byte", show: format!("\"{}\"", text) });
+    }
+    crate::props_direct::run_tris(ctx, tris);
+}
+
 pub fn c03(ctx: &mut Ctx) {
     c03_prevalidate_sweep(ctx);
+    c03_latin1(ctx);
     let mut rng = ctx.rng.fork();
     let mut jobs = Vec::new();
     let n = ctx.n(150, 3000);
@@ -795,7 +894,7 @@ pub fn c03(ctx: &mut Ctx) {
         let mut l = random_logical(&mut rng);
         // timestamps within 2 s of midnight UTC, with zone offsets, for a third of the cases
         if i % 3 == 0 {
-            let day = rng.range(16000, 20000);
+            let day = if i % 6 == 3 { *rng.pick(&[17896i64, 16801, 16802, 18628, 20088, 18992, 17897]) + rng.below(2) as i64 } else { rng.range(16000, 20000) };
             l.time_ns = (day as i128 * 86400 + rng.range(-2, 2) as i128) * 1_000_000_000;
             l.time_style = (*rng.pick(&[0i64, 3600, -3600, 5 * 3600 + 1800, -8 * 3600, 14 * 3600]), rng.below(32) as u8, 0);
         }
@@ -839,6 +938,8 @@ pub fn c03(ctx: &mut Ctx) {
             format!("{}/{}/{}//aws4_request", ak, date, region),
             format!("{}/{}/{}/{}/aws4_request", ak, local_date, region, service),
             format!("a/b/c/d/e/f/g/h"),
+            format!("{}/{:04}{}/{}/{}/aws4_request", ak, date[..4].parse::<i64>().unwrap() + 1, &date[4..], region, service),
+            format!("{}/{:04}{}/{}/{}/aws4_request", ak, date[..4].parse::<i64>().unwrap() - 1, &date[4..], region, service),
         ];
         if !ctx.thorough {
             rng.shuffle(&mut variants);
@@ -887,7 +988,12 @@ pub fn c03(ctx: &mut Ctx) {
                 format!("{} {} {}", &d[..4], &d[4..6], &d[6..]), format!(" {}", d), format!("{} ", d), format!("{}-{}-{}", &d[..4], &d[4..6], &d[6..]),
                 format!("+{}", d), format!("0{}", d), format!("{}T", d), format!("{}{}", &d[..6], d[6..].trim_start_matches('0')),
                 format!("{} {}", &d[..4], &d[4..]), d.replace('0', "O"), format!("{}/", d),
+                format!("{:04}{}", d[..4].parse::<i64>().unwrap() + 1, &d[4..]), format!("{:04}{}", d[..4].parse::<i64>().unwrap() - 1, &d[4..]),
             ];
+            let mut forms = forms;
+            if !ctx.thorough {
+                rng.shuffle(&mut forms);
+            }
             let nforms = if ctx.thorough { forms.len() } else { 4 };
             for f in forms.into_iter().take(nforms + (i % 3)) {
                 if f == *d {
@@ -1110,6 +1216,13 @@ pub fn c05(ctx: &mut Ctx) {
         let mut j2 = job(c2, if ok { Expect::Accept } else { Expect::Refuse(Some("SignatureDoesNotMatch")) }, if ok { "c05-met" } else { "c05-violated" }, "C05: both requirement containers must agree");
         j2.expect_calls = Some(if ok { 1 } else { 0 });
         jobs.push(j2);
+        // and through the growable container's constructor (lists taken as given, no per-name insertion)
+        let mut c3 = s.case.clone();
+        c3.vec_reqs = true;
+        c3.req_ops = vec![('N', String::new())];
+        let mut j3 = job(c3, if ok { Expect::Accept } else { Expect::Refuse(Some("SignatureDoesNotMatch")) }, if ok { "c05-met" } else { "c05-violated" }, "C05: every way of building a requirements container must give the same verdict (declared names match case-insensitively)");
+        j3.expect_calls = Some(if ok { 1 } else { 0 });
+        jobs.push(j3);
         if ctx.rep.samples.len() < 5 {
             ctx.rep.sample(format!("reqs always={:?} if_in_request={:?} prefixes={:?} signed={:?} -> {}", always, ifreq, prefixes, s.signed_names, if ok { "met" } else { "violated" }));
         }
@@ -1169,6 +1282,43 @@ pub fn c19(ctx: &mut Ctx) {
             let v = format!("AWS4-HMAC-SHA256 Credential=AKIDOTHER/20000101/x/y/aws4_request, Credential={}, SignedHeaders=host, SignedHeaders={}, Signature={}", s.credential, s.signed_names.join(";"), s.signature);
             c.headers[auth_idx].1 = v.into_bytes();
             jobs.push(job(c, Expect::Accept, "c19-repeated-auth-param", clause));
+        }
+        // (a') the first Authorization header decides even when it is blank or of another scheme: the request
+        // is refused for its algorithm, a later well-signed header is not consulted
+        for first in [&b""[..], b" ", b"\t", b"Basic dXNlcjpwYXNz", b"Bearer abc", b"AWS4-HMAC-SHA512 Credential=a/b/c/d/aws4_request, SignedHeaders=host, Signature=00"] {
+            let mut c = s.case.clone();
+            c.headers.insert(auth_idx, (rng.pick(&["Authorization", "authorization"]).to_string(), first.to_vec()));
+            let mut j = job(c, Expect::Refuse(Some("IncompleteSignature")), "c19-first-authorization-not-sigv4", "C19: the first Authorization header is the one authenticated; when it is blank or of another scheme the request is refused (unsupported algorithm), whatever a later header says");
+            j.expect_calls = Some(0);
+            jobs.push(j);
+        }
+        // (b') an item whose name only *resembles* a parameter name (a non-ASCII-whitespace byte glued to it) is
+        // not that parameter: it must not replace the genuine Credential / Signature / SignedHeaders
+        for glue in [0xa0u8, 0x85, 0xff] {
+            for which in 0..3 {
+                for before in [true, false] {
+                    let (name, evil): (&str, String) = match which {
+                        0 => ("Credential", format!("AKIDOTHER/{}/{}/{}/aws4_request", s.scope_date, l.region, l.service)),
+                        1 => ("Signature", bad_sig.clone()),
+                        _ => ("SignedHeaders", "host;x-evil".to_string()),
+                    };
+                    let mut item: Vec<u8> = Vec::new();
+                    if before {
+                        item.push(glue);
+                    }
+                    item.extend_from_slice(name.as_bytes());
+                    if !before {
+                        item.push(glue);
+                    }
+                    item.push(b'=');
+                    item.extend_from_slice(evil.as_bytes());
+                    let mut v = format!("AWS4-HMAC-SHA256 Credential={}, SignedHeaders={}, Signature={}, ", s.credential, s.signed_names.join(";"), s.signature).into_bytes();
+                    v.extend_from_slice(&item);
+                    let mut c = s.case.clone();
+                    c.headers[auth_idx].1 = v;
+                    jobs.push(accept_job_case(c, &s, "c19-lookalike-auth-param", "C19: an Authorization item whose name is a parameter name with a foreign byte attached is not a repetition of that parameter; the genuine parameters are the ones authenticated"));
+                }
+            }
         }
         // (c) X-Amz-Date twice: the first; X-Amz-Date in preference to Date
         let date_idx = s.case.headers.iter().position(|(n, _)| n.eq_ignore_ascii_case("x-amz-date")).unwrap();
